@@ -6,8 +6,6 @@ one send to the next is found by def-use (whatever the locals are called), and t
 from __future__ import annotations
 
 import ast
-import copy as _copy
-import re as _re
 
 from . import c08_gen as G
 from . import e2_formula as F
@@ -16,7 +14,7 @@ from . import sem
 from .c08_gen import F1ALL, J, NONE, Facts, GenEval, depends, free_syms, is_all, symname
 from .core import AnchorError, Unsupported
 from .e1_srcmodel import dotted, walk_no_nested, utext
-from .e2_eval import Evaluator, Unknown, is_unknown, need
+from .e2_eval import Unknown, is_unknown, need
 
 UNC, SE2, BASE = O.UNC, O.SE2, O.BASE
 CDF = "pyyeti/ode/solvecdf.py"
@@ -133,6 +131,7 @@ class Arm:
 
     def __init__(self, ev, canon):
         self.ev, self.canon, self.loop = ev, canon, ev.loop
+        self.lev = ev.loop_ev or ev          # the evaluator that ran the receiving loop (a `yield from` sub-generator, or ev itself)
         self.cells, self.pre_cells = [], []
         for c in ev.gcells:
             key = canon.classify(c["root"], c["rows"], c["col"]) if c["root"] is not None else (None, None, None)
@@ -148,7 +147,15 @@ class Arm:
         return None if c is None else c["value"]
 
     def final(self, name):
-        return self.ev.env.get(name)
+        return self.lev.slot_value(name)
+
+    @property
+    def carried(self):
+        return self.lev.carried
+
+    @property
+    def carry_init(self):
+        return self.lev.carry_init
 
 
 GENS = {
@@ -171,6 +178,26 @@ def _inline(ctx, kind):
     return cache[kind]
 
 
+def array_shapes(env, fn, mode):
+    """dimensions of the arrays a body may ask `.shape` of: the time histories are (n, nt), the solver's matrices by their partition"""
+    n, nt = F.sym("@n"), NT
+    names = [a.arg for a in fn.args.args]
+    sh = {names[1]: (n, nt), names[2]: (n, nt), "self._force": (n, nt)}
+    if mode == "E":
+        sh[names[3]] = (n, nt)
+    k = env["self.ksize"]
+    for c in ("E_dd", "E_dv", "E_vd", "E_vv", "bo", "alpha"):
+        sh[c] = (k, k)
+    for c in ("P", "Q"):
+        sh[c] = (2 * k, k)
+    for c in ("F", "G", "A", "B", "Fp", "Gp", "Ap", "Bp"):
+        sh[c] = (k,)
+    return sh
+
+
+NT = F.sym("@nt")
+
+
 def run_arm(ctx, kind, cfg, which, carry=None, generic=(), generic_prefix=None, sided=False, two_steps=False):
     """evaluate generator `kind` for the configuration and the kind of send; memoised per run"""
     key = (kind, tuple(sorted((k, str(v)) for k, v in cfg.items())), which, tuple(sorted((k, repr(v)) for k, v in (carry or {}).items())),
@@ -183,18 +210,36 @@ def run_arm(ctx, kind, cfg, which, carry=None, generic=(), generic_prefix=None, 
         return r
     rel, qual, mode = GENS[kind]
     fn = ctx.src.func(rel, qual)
-    env, facts = cfg_env(cfg, which)
-    facts.generic = set(generic)
-    facts.generic_prefix = generic_prefix
-    # a message can only be sent when there are at least two time steps: columns of the displacement array
-    facts.ge2 = [F.fn("ref", F.sym(fn.args.args[1].arg + ".shape"), F.const(1), G.ALLM)]
-    facts.ge2_exact = two_steps
-    canon = Canon(fn, cfg, mode, which)
-    ev = GenEval(ctx, fn, env=env, facts=facts, inline=_inline(ctx, kind), refhook=canon, carry=carry, sided=sided)
-    try:
+
+    def make(which_, carry_, generic_, prefix_, heap_carried):
+        env, facts = cfg_env(cfg, which_)
+        facts.generic = set(generic_)
+        facts.generic_prefix = prefix_
+        # a message can only be sent when there are at least two time steps: columns of the time histories
+        facts.ge2 = [NT]
+        facts.ge2_exact = two_steps
+        canon = Canon(fn, cfg, mode, which_)
+        ev = GenEval(ctx, fn, env=env, facts=facts, inline=_inline(ctx, kind), refhook=canon, carry=carry_, sided=sided,
+                     shapes=array_shapes(env, fn, mode), heap_carried=heap_carried)
         ev.run(fn.body)
+        if facts.lost:
+            raise Unsupported(f"{qual}: {facts.lost[0]}")
         if ev.loop is None:
             raise Unsupported(f"{qual}: no generator loop is reached in configuration {cfg}")
+        return ev, canon
+
+    try:
+        ev, canon = make(which, carry, generic, generic_prefix, None)
+        if (ev.loop_ev or ev).heap_entry:
+            # mutable objects (namespace, dict) alive across sends: only the slots some send stores into are state, the others are constants
+            hkey = ("heap", key[0], key[1])
+            if hkey not in cache:
+                written = set()
+                for w in ("pos", "addon"):
+                    evd, _ = make(w, None, (), "carry:", None)
+                    written |= set((evd.loop_ev or evd).heap_written) & set((evd.loop_ev or evd).heap_entry)
+                cache[hkey] = frozenset(written)
+            ev, canon = make(which, carry, generic, generic_prefix, cache[hkey])
     except Unsupported as e:
         cache[key] = e
         raise
@@ -257,7 +302,7 @@ def carried_roles(arms):
     or a live carried value), 'test' (decides a branch).  A name none of whose earlier values can be observed has no entry."""
     cands = []
     for a in arms:
-        for c in a.ev.carried:
+        for c in a.carried:
             if c not in cands:
                 cands.append(c)
     roles = {}
@@ -288,6 +333,8 @@ def carried_roles(arms):
         for x in list(roles):
             for a in arms:
                 fv = a.final(x)
+                if _eq(fv, a.lev.carry_over.get(x, F.sym("carry:" + x))):
+                    continue                  # left as it was found: nothing flows into it
                 for c in cands:
                     if c != x and depends(fv, "carry:" + c) and "value" not in roles.get(c, ()):
                         add(c, "value")
@@ -308,6 +355,11 @@ def _find_state(ctx, kind, cfg):
         raise Unsupported(f"more than one carried value decides a branch: {sorted(tags)}")
     if tags:
         valid = run_arm(ctx, kind, cfg, "pos", carry={tags[0]: J - 1})
+        first = [c for c, r in roles.items() if r == {"index"}]
+        if len(first) == 1:
+            # an add-on follows a positive send, which leaves tag == step index (both obligations of R1): its arm is evaluated in that world,
+            # so a test of the tag in the add-on arm (`if i_last == i: ...`) is decided by meaning
+            arms[1] = run_arm(ctx, kind, cfg, "addon", carry={tags[0]: F.sym("carry:" + first[0])}, generic_prefix="carry:")
         arms = arms + [valid]
         roles = carried_roles(arms)
     index = [c for c, r in roles.items() if r == {"index"}]
@@ -315,8 +367,16 @@ def _find_state(ctx, kind, cfg):
     return index, tags, cache, roles, arms
 
 
+def addon_arm(ctx, kind, cfg):
+    """the add-on arm of a configuration (for the damping-as-force generator: in the world a positive send leaves behind)"""
+    if kind == "cdf" and cfg.get("k", True):
+        return _find_state(ctx, kind, cfg)[4][1]
+    return run_arm(ctx, kind, cfg, "addon", generic_prefix="carry:")
+
+
 def r1_carried_state(ctx):
     nloops = 0
+    nconf = 0
     covered = {}
     for kind, configs in (("real", u_configs()), ("cdf", u_configs()), ("complex", cx_configs()), ("se2", se2_configs())):
         rel, qual, mode = GENS[kind]
@@ -333,6 +393,7 @@ def r1_carried_state(ctx):
                 ctx.error(f"{tag}: carried state", fn, str(e))
                 continue
             lp = arms[0].loop
+            nconf += 1
             seen.add(id(lp))
             first = id(lp) not in done_loops
             done_loops.add(id(lp))
@@ -378,7 +439,11 @@ def r1_carried_state(ctx):
             ctx.error(f"{short}: a generator loop is reached by none of the configurations examined", missing[0], [l.lineno for l in missing])
         else:
             ctx.ok(f"{short}: every generator loop is reached by one of the configurations examined ({len(loops)} loops)", fn, nontrivial=False)
-    ctx.check(nloops >= 13, f"carried-state rule bound to {nloops} generator loops", UNC + ":1", nontrivial=False)
+    # (how many syntactic loops the configurations share is a matter of style - merged loops, a common sub-generator: not an obligation)
+    if nconf == 40:
+        ctx.ok(f"carried-state rule bound to {nconf} of 40 configurations ({nloops} generator loops)", UNC + ":1", nontrivial=False)
+    else:
+        ctx.error(f"carried-state rule bound to {nconf} of 40 configurations ({nloops} generator loops)", UNC + ":1")
 
 
 def _worlds(tagname, cachename):
@@ -394,7 +459,7 @@ def _cached_damping_force(ctx, tag, cfg, tg, ch, arms):
     pos, addon = arms[0], arms[1]
     lp = pos.loop
     # invariant at loop entry: the cache holds bo @ V[:, tag]
-    t0, c0 = pos.ev.carry_init.get(tg), pos.ev.carry_init.get(ch)
+    t0, c0 = pos.carry_init.get(tg), pos.carry_init.get(ch)
     ok = t0 is not None and c0 is not None and not is_unknown(t0) and not is_unknown(c0) and not isinstance(c0, tuple)
     if ok:
         cn = pos.canon.colname(t0)
@@ -417,7 +482,7 @@ def _cached_damping_force(ctx, tag, cfg, tg, ch, arms):
     # bookkeeping of the tag
     ok = pos.final(tg) is not None and not is_unknown(pos.final(tg)) and pos.final(tg).equals(J)
     ctx.check(ok, f"{tag}: a positive send records which step the cache now belongs to", lp, None if ok else repr(pos.final(tg)))
-    ok = addon.final(tg) is not None and not is_unknown(addon.final(tg)) and addon.final(tg).equals(F.sym("carry:" + tg))
+    ok = _eq(addon.final(tg), addon.lev.carry_over.get(tg, F.sym("carry:" + tg)))
     ctx.check(ok, f"{tag}: an add-on leaves the tag of the cache alone", lp, None if ok else repr(addon.final(tg)), nontrivial=False)
     # an add-on that changes V[:, i] changes the cached force as well
     vch = addon.cell("v", "k") is not None
@@ -428,161 +493,115 @@ def _cached_damping_force(ctx, tag, cfg, tg, ch, arms):
 
 
 # ---------------------------------------------------------------------------------------------------------------- batch side
-def _mk_env():
-    env = {f"pc.{c}": v for c, v in COEF.items()}
-    env.update({"self.pc.alpha": ALPHA, "pc.alpha": ALPHA, "self.bo": BO, "F1": F1, "self.ikrf": IKRF,
-                "pc.Fe": F.sym("Fe"), "pc.Ae": F.sym("Ae"), "pc.Be": F.sym("Be"), "pc.ur_d": F.sym("ur_d"), "pc.ur_v": F.sym("ur_v"),
-                "pc.ur_inv_v": F.sym("ur_inv_v"), "pc.ur_inv_d": F.sym("ur_inv_d"), "self.invm": F.sym("invm"), "self.imrb": F.sym("imrb"),
-                "self.P": F.sym("P"), "self.Q": F.sym("Q"), "self.E_dd": F.sym("E_dd"), "self.E_dv": F.sym("E_dv"),
-                "self.E_vd": F.sym("E_vd"), "self.E_vv": F.sym("E_vv")})
-    return env
+BATCH = {
+    "real": (UNC, "SolveUnc._solve_real_unc", "U"),
+    "cdf": (UNC, "SolveUnc._solve_real_unc_cdforces", "U"),
+    "complex": (UNC, "SolveUnc._solve_complex_unc", "E"),
+    "se2": (SE2, "SolveExp2.tsolve", "U"),
+}
+# the force history of the batch solver at the step being computed is what the generator is sent
+BATCH_REFNAME = {("force", "k", "prev"): "f0", ("force", "k", "cur"): "f1", ("force", "rb", "prev"): "f0rb", ("force", "rb", "cur"): "f1rb",
+                 ("force", "rf", "cur"): "f1rf"}
 
 
-def _call_hook(node, ev):
-    d = dotted(node.func) or ""
-    if d == "la.lu_solve" and len(node.args) >= 2:
-        a, b = ev.ev(node.args[0]), ev.ev(node.args[1])
-        if is_unknown(a) or is_unknown(b):
-            return a if is_unknown(a) else b
-        if dotted(node.args[1].func if isinstance(node.args[1], ast.Call) else node.args[1]) in ("np.eye", "np.identity"):
-            return need(a)          # lu_solve(lu, eye) : the inverse; `a` already stands for the inverse operator
-        return need(a) * need(b)
-    if d in ("np.eye", "np.identity"):
-        return F.const(1)
-    if d.endswith(".ravel") or d.endswith(".copy"):
-        return ev.ev(node.func.value)
-    return NotImplemented
+def batch_namer(arr, rn, cn):
+    nm = BATCH_REFNAME.get((arr, rn, cn)) or REFNAME.get((arr, rn, cn))
+    if nm is None:
+        nm = f"@{arr}.{rn}.{cn}" if arr in ("d", "v", "a", "force") and cn in ("prev", "cur") else f"@{arr}|{rn}|{cn}"
+    return F.sym(nm)
 
 
-def _store_value(ev, names):
-    for b, idx, val, st in reversed(ev.stores):
-        if b in names and idx.replace(" ", "") in (":,i", "(:,i)"):
-            return val, st
-    return None, None
+class BatchStep:
+    """one generic time step of a batch solver in a configuration"""
+
+    def __init__(self, ev, fn, shared):
+        self.ev, self.fn, self.cells, self.carried, self.loops = ev, fn, shared.cells, shared.carried, shared.loops
+
+    def cell(self, arr, rn, loop_only=False):
+        hit = [c for c in self.cells if c["arr"] == arr and c["rn"] == rn and c["cn"] == "cur" and (c["loop"] is not None or not loop_only)]
+        return hit[-1] if hit else None
+
+    def value(self, arr, rn):
+        c = self.cell(arr, rn)
+        return None if c is None else c["value"]
+
+    def where(self, arr, rn):
+        c = self.cell(arr, rn)
+        return c["node"] if c is not None else (self.loops[0] if self.loops else self.fn)
+
+    def unverified(self):
+        """carried locals of the time loops whose new value is not, syntactically, their old value one step later (cached forces, modal states)"""
+        return [c for c in self.carried if not c["verified"]]
 
 
-def _batch_real_unc(ctx):
-    """batch update formulas (d1, v1) of the uncoupled real solver for order 1 / 0"""
-    fn = ctx.src.func(UNC, "_solve_real_unc_inner_loop")
-    out = {}
-    for order in (1, 0):
-        arm = None
-        for st in fn.body:
-            if isinstance(st, ast.If) and ast.unparse(st.test).replace(" ", "") == "order==1":
-                arm = st.body if order == 1 else st.orelse
-        if arm is None:
-            raise AnchorError("_solve_real_unc_inner_loop: `if order == 1`")
-        env = dict(COEF)
-        env.update({"di": D0, "vi": V0, "fki": F0})
-
-        def sub(node, ev):
-            t = utext(node)
-            if t == "fk[:,i]":
-                return F1
-            return NotImplemented
-
-        ev = Evaluator(env=env, src=ctx.src, subscript=sub)
-        loop = None
-        for st in arm:
-            if isinstance(st, ast.For):
-                loop = st
-            else:
-                ev.stmt(st)
-        if loop is None:
-            raise AnchorError("_solve_real_unc_inner_loop: loop")
-        # order 0 reads the next force at the end of the body; evaluate the update statements only
-        for st in loop.body:
-            if order == 0 and utext(st) == "fki=fk[:,i]":
-                continue
-            ev.stmt(st)
-        d1, _ = _store_value(ev, ("D",))
-        v1, _ = _store_value(ev, ("V",))
-        out[order] = (d1, v1, loop)
-    return out
+def _batch_inline(ctx, kind):
+    cache = ctx.__dict__.setdefault("_c08_binline", {})
+    if kind not in cache:
+        specs = [(SE2, "SolveExp2"), (BASE, "_BaseODE")] if kind == "se2" else [(UNC, "SolveUnc"), (BASE, "_BaseODE")]
+        cache[kind] = G.inline_table(ctx, specs, exclude=("_delconj", "_addconj", "_calc_acce_kdof", "_init_dva_part", "_alloc_dva", "_init_dv", "_set_initial_cond",
+                                                          "generator", "tsolve", "fsolve", "finalize"))
+    return cache[kind]
 
 
-def _batch_cdforces(ctx):
-    fn = ctx.src.func(UNC, "SolveUnc._solve_real_unc_cdforces")
-    out = {}
-    for order in (1, 0):
-        env = _mk_env()
-        env.update({"di": D0, "vi": V0, "dmpfrc0": BO * V0})
+def run_batch(ctx, kind, cfg):
+    """evaluate one generic time step of the batch solver `kind` in the configuration; memoised per run"""
+    from .c08_batch import BatchCanon, BatchEval, Shared
+    key = (kind, tuple(sorted((k, str(v)) for k, v in cfg.items())))
+    cache = ctx.__dict__.setdefault("_c08_batch", {})
+    if key in cache:
+        r = cache[key]
+        if isinstance(r, Exception):
+            raise r
+        return r
+    rel, qual, mode = BATCH[kind]
+    fn = ctx.src.func(rel, qual)
+    names = [a.arg for a in fn.args.args]
+    table = {names[1]: "force"} if kind == "se2" else {names[1]: "d", names[2]: "v", names[-1]: "force"}
+    if kind == "complex":
+        table[names[3]] = "a"
 
-        def sub(node, ev):
-            t = utext(node)
-            return {"force[kdof,:-1]": F0, "force[kdof,1:]": F1, "ABF[:,i]": ev.env.get("ABF"), "ABFp[:,i]": ev.env.get("ABFp"),
-                    "D[:,0]": D0, "V[:,0]": V0}.get(t, NotImplemented)
+    def rootname(v):
+        s_ = symname(v)
+        if s_ is not None:
+            return table.get(s_)
+        u = sem.unfn(v) if _good(v) else None
+        if u is not None and u[0] == "item" and not isinstance(u[1][0], str) and u[1][1].is_const():
+            sc = sem.split_call(u[1][0])
+            k = int(u[1][1].const_value())
+            if sc is not None and sc[0] == "self._alloc_dva" and 0 <= k < 3:
+                return ("d", "v", "a")[k]           # _alloc_dva returns the (d, v, a) arrays it allocated
+        return None
 
-        def cond(test, ev, order=order):
-            t = utext(test)
-            return {"nt==1": False, "self.order==1": order == 1}.get(t)
+    env, facts = cfg_env(cfg, None)
+    facts.ge2 = [NT]                                 # there is a step to compute: at least two columns
+    sh = {nm: (F.sym("@n"), NT) for nm in table}
+    k = env["self.ksize"]
+    for c in ("E_dd", "E_dv", "E_vd", "E_vv", "bo", "alpha"):
+        sh[c] = (k, k)
+    shared = Shared(batch_namer)
+    ev = BatchEval(ctx, fn, env=env, facts=facts, inline=_batch_inline(ctx, kind), refhook=BatchCanon(rootname, cfg, mode), shapes=sh, shared=shared)
+    try:
+        ev.run(fn.body)
+        if facts.lost:
+            raise Unsupported(f"{qual}: {facts.lost[0]}")
+        if not shared.loops:
+            raise Unsupported(f"{qual}: no time loop is reached in configuration {cfg}")
+    except Unsupported as e:
+        cache[key] = e
+        raise
+    r = BatchStep(ev, fn, shared)
+    cache[key] = r
+    return r
 
-        ev = Evaluator(env=env, cond=cond, src=ctx.src, subscript=sub, call=_call_hook)
-        loop = None
-        for st in fn.body:
-            if isinstance(st, ast.For):
-                loop = st
-                break
-            ev.stmt(st)
-        if loop is None:
-            raise AnchorError("_solve_real_unc_cdforces: loop")
-        ev.env["di"], ev.env["vi"] = D0, V0
-        d00 = ev.env.get("dmpfrc0")
-        ev.run(loop.body)
-        d1 = [v for b, i, v, s in ev.stores if b == "D"][-1]
-        v1 = [v for b, i, v, s in ev.stores if b == "V"][-1]
-        out[order] = (d1, v1, ev.env.get("dmpfrc0"), d00, loop)
-    return out
+
+def _bgood(v):
+    """a batch value the rule may compare: lowered, and every column it reads placed relative to the step"""
+    from .c08_batch import leftovers
+    return _good(v) and not leftovers(v)
 
 
 ROWS_D = F.fn("rowsel", F.sym("self.ksize"), NONE, NONE)      # rows ksize: of the [v; d] force integral
 ROWS_V = F.fn("rowsel", NONE, F.sym("self.ksize"), NONE)      # rows :ksize
-
-
-def _batch_se2(ctx, order, mass):
-    """one step of SolveExp2.tsolve: (d1, v1, loop)"""
-    fn = ctx.src.func(SE2, "SolveExp2.tsolve")
-    fk = F.sym("fk")
-
-    def cond(test, ev):
-        t = utext(test)
-        return {"ksize>0": True, "self.ksize>0": True, "nt>1": True, "self.misnotNone": mass is not None, "self.unc": mass != "coupled",
-                "self.order==1": order == 1, "notself.slices": False, "self.slices": True}.get(t)
-
-    def sub(node, ev):
-        t = utext(node)
-        fixed = {"force[kdof]": fk, "D[:,i]": D0, "V[:,i]": V0}
-        if t in fixed:
-            return fixed[t]
-        m = _re.fullmatch(r"(\w+)\[:,(:-1|1:)\]", t)
-        if m and m.group(1) in ev.env and not is_unknown(ev.env[m.group(1)]):
-            return need(ev.env[m.group(1)]).subs({"fk": F0 if m.group(2) == ":-1" else F1})
-        m = _re.fullmatch(r"(\w+)\[(ksize:|:ksize),i\]", t)
-        if m and m.group(1) in ev.env and not is_unknown(ev.env[m.group(1)]):
-            return (ROWS_D if m.group(2) == "ksize:" else ROWS_V) * need(ev.env[m.group(1)])
-        return NotImplemented
-
-    ev = Evaluator(env=_mk_env(), cond=cond, src=ctx.src, subscript=sub, call=_call_hook, store_accept=lambda n, i, node: False)
-    loops = []
-
-    def run(stmts):
-        for st in stmts:
-            if isinstance(st, ast.If):
-                c = cond(st.test, ev)
-                if c is None:
-                    raise Unsupported(f"SolveExp2.tsolve: undecided test `{ast.unparse(st.test)}`")
-                run(st.body if c else st.orelse)
-            elif isinstance(st, ast.For):
-                loops.append(st)
-                run(st.body)
-            elif isinstance(st, (ast.Expr, ast.Return)):
-                continue
-            else:
-                ev.stmt(st)
-    run(fn.body)
-    d1 = [v for b, i, v, s in ev.stores if b == "D" and i.replace(" ", "").strip("()") == ":,i+1"]
-    v1 = [v for b, i, v, s in ev.stores if b == "V" and i.replace(" ", "").strip("()") == ":,i+1"]
-    return (d1[-1] if d1 else None), (v1[-1] if v1 else None), (loops[0] if loops else fn)
 
 
 # ---------------------------------------------------------------------------------------------------------------- step == batch
@@ -642,21 +661,58 @@ def _rf_and_force(ctx, tag, arm, cfg):
     ctx.check(not other, f"{tag}: a positive send writes column i of the solution and of the force history and nothing else", lp, other, nontrivial=False)
 
 
+STATE_SYMS = {"d0", "v0", "f0", "f0rb", "drb0", "vrb0"}
+
+
+def batch_step(ctx, kind, cfg, derived=0, label=None):
+    """the generic step of a batch solver, with the obligation that what its time loop carries from one iteration to the next is the column it
+    has just stored (`derived`: how many carried values may be something else - a cached force, a modal state - and are used as a lemma)"""
+    qual = BATCH[kind][1].split(".")[-1]
+    tag = label or f"{qual} ({cfg_tag(cfg)})"
+    try:
+        b = run_batch(ctx, kind, cfg)
+    except Unsupported as e:
+        ctx.error(f"{tag}: batch step", None, str(e))
+        return None
+    seen = ctx.__dict__.setdefault("_c08_bseen", set())
+    if (kind, id(b)) in seen:
+        return b
+    seen.add((kind, id(b)))
+    unv = b.unverified()
+    stale = [c for c in unv if symname(c["hyp"]) in STATE_SYMS]
+    if stale:
+        ctx.fail(f"{tag}: what the time loop carries into the next iteration is the column it has just stored", stale[0]["loop"],
+                 {c["name"]: {"holds at the start of step i": repr(c["hyp"]), "after the body": repr(c["final"])} for c in stale})
+    elif len(unv) > derived:
+        ctx.error(f"{tag}: the time loop carries a value the rule cannot place", unv[0]["loop"], {c["name"]: repr(c["hyp"]) for c in unv})
+        return None
+    else:
+        ctx.ok(f"{tag}: what the time loop carries into the next iteration is the column it has just stored", b.loops[0], nontrivial=False)
+    return b
+
+
 def r2_step_equals_batch(ctx):
-    batch = _batch_real_unc(ctx)
+    batch = {}
+    for order in (1, 0):
+        b = batch_step(ctx, "real", {"order": order, "rf": True, "k": True}, label=f"_solve_real_unc (order {order})")
+        batch[order] = (b.value("d", "k"), b.value("v", "k"), b.where("d", "k")) if b is not None else (None, None, None)
     ref = {1: (COEF["F"] * D0 + COEF["G"] * V0 + COEF["A"] * F0 + COEF["B"] * F1,
                COEF["Fp"] * D0 + COEF["Gp"] * V0 + COEF["Ap"] * F0 + COEF["Bp"] * F1),
            0: (COEF["F"] * D0 + COEF["G"] * V0 + (COEF["A"] + COEF["B"]) * F0,
                COEF["Fp"] * D0 + COEF["Gp"] * V0 + (COEF["Ap"] + COEF["Bp"]) * F0)}
     for order in (1, 0):
         d1, v1, loop = batch[order]
+        if not _bgood(d1) or not _bgood(v1):
+            continue
         ok = _eq(d1, ref[order][0]) and _eq(v1, ref[order][1])
         ctx.check(ok, f"_solve_real_unc_inner_loop (order {order}): the batch step is the documented one-step recurrence "
                       f"{'F d + G v + A f0 + B f1' if order else 'F d + G v + (A + B) f0'} (and its velocity twin)", loop,
                   None if ok else {"d1": repr(d1), "v1": repr(v1)})
-    ok = _good(batch[0][0]) and _good(batch[1][0]) and batch[1][0].subs({"f1": F0}).equals(batch[0][0]) and \
-        batch[1][1].subs({"f1": F0}).equals(batch[0][1])
-    ctx.check(ok, "_solve_real_unc_inner_loop: order 0 is order 1 with the force held (f1 := f0)", batch[0][2])
+    if not all(_bgood(x) for o in (0, 1) for x in batch[o][:2]):
+        ctx.error("_solve_real_unc: batch step not lowered", batch[0][2], {o: [repr(x) for x in batch[o][:2]] for o in (0, 1)})
+    else:
+        ok = batch[1][0].subs({"f1": F0}).equals(batch[0][0]) and batch[1][1].subs({"f1": F0}).equals(batch[0][1])
+        ctx.check(ok, "_solve_real_unc_inner_loop: order 0 is order 1 with the force held (f1 := f0)", batch[0][2])
     # generators: plain uncoupled
     for cfg in u_configs():
         tag = f"_solve_real_unc_generator ({cfg_tag(cfg)})"
@@ -666,8 +722,14 @@ def r2_step_equals_batch(ctx):
             ctx.error(f"{tag}: positive send", None, str(e))
             continue
         if cfg["k"]:
-            b = batch[cfg["order"]]
+            bs = batch_step(ctx, "real", cfg)
+            if bs is None:
+                continue
+            b = (bs.value("d", "k"), bs.value("v", "k"))
             d1, v1 = _u(arm.value("d", "k"), cfg), _u(arm.value("v", "k"), cfg)
+            if not _bgood(b[0]) or not _bgood(b[1]):
+                ctx.error(f"{tag}: batch step not lowered", bs.where("d", "k"), {"d": repr(b[0]), "v": repr(b[1])})
+                continue
             ok = _eq(d1, b[0])
             ctx.check(ok, f"{tag}: a positive send stores the batch displacement step computed from column i-1, Force[:, i-1] and the sent force",
                       (arm.cell("d", "k") or {}).get("node") or arm.loop, None if ok else {"generator": repr(d1), "batch": repr(b[0])})
@@ -676,13 +738,33 @@ def r2_step_equals_batch(ctx):
                       None if ok else {"generator": repr(v1), "batch": repr(b[1])})
         _rf_and_force(ctx, tag, arm, cfg)
     # generators: coupled damping as force
-    cb = _batch_cdforces(ctx)
+    def cdf_batch(cfg, tag):
+        """(d1, v1, damping force carried into the next step) of the batch damping-as-force recurrence; the carried force is used as a lemma
+        (i): at the start of a step it is bo @ V[:, i-1], as its initial value says for step 0"""
+        bs = batch_step(ctx, "cdf", cfg, derived=1, label=tag)
+        if bs is None:
+            return None
+        unv = bs.unverified()
+        loop = bs.where("d", "k")
+        if len(unv) != 1:
+            ctx.fail(f"{tag}: the batch loop carries the off-diagonal damping force of the step it has just solved", loop,
+                     {c["name"]: repr(c["hyp"]) for c in bs.carried})
+            return None
+        if not _bgood(unv[0]["hyp"]):
+            ctx.error(f"{tag}: the value the batch loop carries besides the solution is not lowered", loop, repr(unv[0]["hyp"]))
+            return None
+        ok = _eq(unv[0]["hyp"], BO * V0)
+        ctx.check(ok, f"{tag}: the damping force the batch loop starts from is bo @ V[:, 0]", loop, None if ok else repr(unv[0]["hyp"]), nontrivial=False)
+        out = (bs.value("d", "k"), bs.value("v", "k"), unv[0]["final"], loop)
+        if not all(_bgood(x) for x in out[:3]):
+            ctx.error(f"{tag}: batch step not lowered", loop, [repr(x) for x in out[:3]])
+            return None
+        ctx.ok(f"{tag}: batch step lowered", loop, nontrivial=False)
+        return out
+
+    cb = {}
     for order in (1, 0):
-        d1, v1, dnext, d00, loop = cb[order]
-        ok = _eq(d00, BO * V0)
-        ctx.check(ok, f"_solve_real_unc_cdforces (order {order}): the initial damping force is bo @ V[:, 0]", loop, nontrivial=False)
-        ok = _good(dnext) and _good(v1)
-        ctx.check(ok, f"_solve_real_unc_cdforces (order {order}): batch step lowered", loop, nontrivial=False)
+        cb[order] = cdf_batch({"order": order, "rf": True, "k": True}, f"_solve_real_unc_cdforces (order {order})")
     for cfg in u_configs():
         tag = f"_solve_real_unc_generator_cdforces ({cfg_tag(cfg)})"
         if not cfg["k"]:
@@ -693,7 +775,9 @@ def r2_step_equals_batch(ctx):
                 continue
             _rf_and_force(ctx, tag, arm, cfg)
             continue
-        b = cb[cfg["order"]]
+        b = cb[cfg["order"]] if cfg["rf"] else cdf_batch(cfg, f"_solve_real_unc_cdforces ({cfg_tag(cfg)})")
+        if b is None:
+            continue
         try:
             index, tags, cache, roles, arms = _find_state(ctx, "cdf", cfg)
         except Unsupported as e:
@@ -746,10 +830,13 @@ def r2_step_equals_batch(ctx):
         _rf_and_force(ctx, tag, arm, cfg)
     for order in (1, 0):
         for mass in (None, "unc", "coupled"):
-            try:
-                d1, v1, loop = _batch_se2(ctx, order, mass)
-            except Unsupported as e:
-                ctx.error(f"SolveExp2.tsolve (order {order}, m {mass or 'None'}): batch step", None, str(e))
+            bs = batch_step(ctx, "se2", {"order": order, "rf": True, "k": True, "m": mass, "unc": mass != "coupled"},
+                            label=f"SolveExp2.tsolve (order {order}, m {mass or 'None'})")
+            if bs is None:
+                continue
+            d1, v1, loop = bs.value("d", "k"), bs.value("v", "k"), bs.where("d", "k")
+            if not _bgood(d1) or not _bgood(v1):
+                ctx.error(f"SolveExp2.tsolve (order {order}, m {mass or 'None'}): batch step not lowered", loop, {"d": repr(d1), "v": repr(v1)})
                 continue
             mm = invm if mass is not None else F.const(1)
             want = P * mm * F0 + (Q * mm * F1 if order == 1 else 0)
@@ -789,7 +876,7 @@ def r3_addon_linear_part(ctx):
             tag = f"{short} ({cfg_tag(cfg)})"
             try:
                 pos, cache = _pos_for_addon(ctx, kind, cfg)
-                add = run_arm(ctx, kind, cfg, "addon", generic_prefix="carry:")
+                add = addon_arm(ctx, kind, cfg)
             except Unsupported as e:
                 ctx.error(f"{tag}: add-on send", None, str(e))
                 continue
@@ -837,110 +924,6 @@ def r3_addon_linear_part(ctx):
 
 
 # ---------------------------------------------------------------------------------------------------------------- complex-eigenvalue path
-FRB, FK = F.sym("frb"), F.sym("fk")
-
-
-class _ReIm(ast.NodeTransformer):
-    """X.real / X.imag -> __re(X) / __im(X) so that the two parts stay distinguishable in the algebra"""
-
-    def visit_Attribute(self, node):
-        self.generic_visit(node)
-        if node.attr in ("real", "imag") and isinstance(node.ctx, ast.Load):
-            return ast.copy_location(ast.Call(func=ast.Name(id="__re" if node.attr == "real" else "__im", ctx=ast.Load()), args=[node.value], keywords=[]), node)
-        return node
-
-
-def _cx_env():
-    env = _mk_env()
-    for nm in ("rur_d", "iur_d", "rur_v", "iur_v"):
-        env[f"pc.{nm}"] = F.sym(nm)
-    env.update({"pc.G": F.sym("G"), "pc.A": F.sym("A"), "pc.Ap": F.sym("Ap"), "self.ikrf": IKRF, "self.m": F.sym("m")})
-    return env
-
-
-def _cx_call(node, ev):
-    d = dotted(node.func) or ""
-    if d in ("__re", "__im"):
-        v = ev.ev(node.args[0])
-        if is_unknown(v):
-            return v
-        return F.fn("re" if d == "__re" else "im", need(v))
-    if d in ("self._delconj",):
-        return F.const(0)
-    return _call_hook(node, ev)
-
-
-def _cx_cond(cfg):
-    def cond(test, ev):
-        if isinstance(test, ast.UnaryOp) and isinstance(test.op, ast.Not) and utext(test) != "notself.slices":
-            r = cond(test.operand, ev)
-            return None if r is None else not r
-        t = utext(test)
-        table = {
-            "self.rbsize": cfg["rb"], "rbsize": cfg["rb"], "self.misnotNone": cfg["m"] is not None, "misnotNone": cfg["m"] is not None,
-            "self.unc": cfg["m"] == "unc", "unc": cfg["m"] == "unc", "nt>1": True, "nt==1": False,
-            "self.order==1": cfg["order"] == 1, "order==1": cfg["order"] == 1, "order==0": cfg["order"] == 0,
-            "notself.slices": False, "self.ksizeandnt>1": True, "ksize": True, "self.ksize": True,
-            "self.systypeisfloat": cfg["real"], "systypeisfloat": cfg["real"], "rfsize": cfg.get("rf", True), "self.rfsize": cfg.get("rf", True),
-        }
-        return table.get(t)
-    return cond
-
-
-def _batch_complex(ctx, cfg):
-    """one step of SolveUnc._solve_complex_unc for the configuration: dict of the values stored into column i+1"""
-    fn0 = ctx.src.func(UNC, "SolveUnc._solve_complex_unc")
-    fn = _ReIm().visit(_copy.deepcopy(fn0))
-    cond = _cx_cond(cfg)
-
-    def sub(node, ev):
-        t = utext(node)
-        fixed = {"force[rb]": FRB, "force[kdof]": FK, "drb[:,0]": F.sym("drb0"), "vrb[:,0]": F.sym("vrb0"), "d[rb]": F.sym("drb"), "v[rb]": F.sym("vrb"),
-                 "v[kdof,0]": V0, "d[kdof,0]": D0}
-        if t in fixed:
-            return fixed[t]
-        m = _re.fullmatch(r"(\w+)\[:,(:-1|1:|i)\]", t)
-        if m and m.group(1) in ev.env and not is_unknown(ev.env[m.group(1)]) and m.group(1) not in ("y",):
-            base = need(ev.env[m.group(1)])
-            if m.group(2) == ":-1":
-                return base.subs({"frb": F0RB, "fk": F0})
-            if m.group(2) == "1:":
-                return base.subs({"frb": F1RB, "fk": F1})
-            return base
-        if t == "y[:,1:]":
-            for b, idx, val, st in reversed(ev.stores):
-                if b == "y" and idx.replace(" ", "").strip("()") == ":,i+1":
-                    return val
-        return NotImplemented
-
-    ev = Evaluator(env=_cx_env(), cond=cond, src=ctx.src, subscript=sub, call=_cx_call, store_accept=lambda n, i, node: True)
-    ev.env["y0"] = F.sym("y0")
-
-    def run(stmts):
-        for st in stmts:
-            if isinstance(st, ast.If):
-                c = cond(st.test, ev)
-                if c is None:
-                    raise Unsupported(f"_solve_complex_unc: undecided test `{ast.unparse(st.test)}`")
-                run(st.body if c else st.orelse)
-            elif isinstance(st, ast.For):
-                run(st.body)           # one symbolic iteration: column i -> i + 1
-            elif isinstance(st, ast.Expr):
-                continue
-            else:
-                ev.stmt(st)
-    run(fn.body)
-    out = {}
-    for b, idx, val, st in ev.stores:
-        out[(b, idx.replace(" ", "").strip("()"))] = val
-    out["__AF"] = ev.env.get("AF")
-    out["__AFp"] = ev.env.get("AFp")
-    out["__ABF"] = ev.env.get("ABF")
-    return out, fn0
-
-
-def _old_cfg(cfg):
-    return {"order": cfg["order"], "m": cfg["m"], "real": cfg["real"], "rb": True}
 
 
 def r2c_complex_path(ctx):
@@ -948,37 +931,39 @@ def r2c_complex_path(ctx):
     send of the generator stores, for the rigid-body, elastic and residual-flexibility partitions, exactly the batch step computed from
     column i-1; in every configuration order x mass (None / diagonal / full) x system type (real / complex)."""
     nconf = 0
+    pairs = [("rigid-body displacement", ("d", "rb")), ("rigid-body velocity", ("v", "rb")), ("elastic displacement", ("d", "k")),
+             ("elastic velocity", ("v", "k"))]
     for cfg in cx_configs():
         order = cfg["order"]
         tag = f"order {order}, m {cfg['m'] or 'None'}, {'real' if cfg['real'] else 'complex'} system"
+        # lemma (ii): the modal state the elastic loop carries is, at the start of a step, what its own column-0 line makes of column i-1
+        b = batch_step(ctx, "complex", cfg, derived=1, label=f"_solve_complex_unc ({tag})")
+        if b is None:
+            continue
+        bfn = b.fn
         try:
-            b, bfn = _batch_complex(ctx, _old_cfg(cfg))
             g = run_arm(ctx, "complex", cfg, "pos", generic_prefix="carry:")
         except Unsupported as e:
             ctx.error(f"complex path ({tag}): could not evaluate", None, str(e))
             continue
         lp = g.loop
         nconf += 1
-        pairs = [("rigid-body displacement", ("drb", ":,i+1"), ("d", "rb")), ("rigid-body velocity", ("vrb", ":,i+1"), ("v", "rb")),
-                 ("elastic displacement", ("d", "kdof,1:"), ("d", "k")), ("elastic velocity", ("v", "kdof,1:"), ("v", "k"))]
-        for what, bk, gk in pairs:
-            bv, gv = b.get(bk), g.value(*gk)
-            if gv is None and _good(bv):
+        for what, gk in pairs:
+            bv, gv = b.value(*gk), g.value(*gk)
+            if gv is None and _bgood(bv):
                 ctx.fail(f"_solve_complex_unc_generator ({tag}): a positive send stores the batch {what} step computed from column i-1", lp,
                          {"generator": "no store into column i of that partition", "stores": sorted({c["text"] for c in g.cells})})
                 continue
-            if not _good(bv) or not _good(gv):
+            if not _bgood(bv) or not _good(gv):
                 _not_lowered(ctx, f"complex path ({tag}): {what} not lowered", bfn, {"batch": repr(bv), "generator": repr(gv)}, gv)
                 continue
-            # batch value is expressed on (drb0, vrb0, y-step); bring the elastic one to the same starting point
-            bv = bv.subs({"di": F.sym("y0")})
             ok = gv.equals(bv)
             ctx.check(ok, f"_solve_complex_unc_generator ({tag}): a positive send stores the batch {what} step computed from column i-1", lp,
                       None if ok else {"generator": repr(gv), "batch": repr(bv)})
         # acceleration of the rigid-body modes and the rf displacement
         gv = g.value("a", "rb")
-        bv = b.get(("a", "rb"))
-        ok = _good(gv) and _good(bv) and gv.equals(bv.subs({"frb": F1RB}))
+        bv = b.value("a", "rb")
+        ok = _good(gv) and _bgood(bv) and gv.equals(bv)
         ctx.check(ok, f"_solve_complex_unc_generator ({tag}): rigid-body acceleration of step i is M_rb^-1 F1[rb] as in the batch solver", lp,
                   None if ok else {"generator": repr(gv), "batch": repr(bv)})
         gv = g.value("d", "rf")
@@ -995,13 +980,20 @@ def r2c_complex_path(ctx):
         ctx.check(ok, f"_solve_complex_unc_generator ({tag}): a positive send replaces the stored force of step i by the sent force", lp,
                   None if ok else (repr(c["value"]) if c else None), nontrivial=False)
         if order == 0:
-            cfg1 = dict(_old_cfg(cfg), order=1)
-            b1, _ = _batch_complex(ctx, cfg1)
-            for nm, hold in (("__AF", {"f1rb": F0RB}), ("__AFp", {"f1rb": F0RB}), ("__ABF", {"f1": F0})):
-                v0_, v1_ = b.get(nm), b1.get(nm)
-                ok = _good(v0_) and _good(v1_) and v1_.subs(hold).equals(v0_)
-                ctx.check(ok, f"_solve_complex_unc ({tag}): the zero-order-hold {nm[2:]} is the first-order one with the force held (f1 := f0)", bfn,
-                          None if ok else {"order 0": repr(v0_), "order 1 with f1:=f0": repr(v1_.subs(hold)) if _good(v1_) else None})
+            try:
+                b1 = run_batch(ctx, "complex", dict(cfg, order=1))
+            except Unsupported as e:
+                ctx.error(f"_solve_complex_unc ({tag}): first-order arm", bfn, str(e))
+                continue
+            hold = {"f1rb": F0RB, "f1": F0}
+            for what, gk in pairs:
+                v0_, v1_ = b.value(*gk), b1.value(*gk)
+                if not _bgood(v0_) or not _bgood(v1_):
+                    ctx.error(f"_solve_complex_unc ({tag}): {what} step not lowered", b.where(*gk), {"order 0": repr(v0_), "order 1": repr(v1_)})
+                    continue
+                ok = v1_.subs(hold).equals(v0_)
+                ctx.check(ok, f"_solve_complex_unc ({tag}): the zero-order-hold {what} step is the first-order one with the force held (f1 := f0)",
+                          b.where(*gk), None if ok else {"order 0": repr(v0_), "order 1 with f1:=f0": repr(v1_.subs(hold)) if _good(v1_) else None})
     ctx.check(nconf == 12, f"complex path evaluated in {nconf} of 12 configurations", None, nontrivial=False)
 
 
@@ -1026,6 +1018,8 @@ def eval_f2x(ctx, rel, qual, cfg, velo, kind, sided=False):
     env, facts = cfg_env(cfg, None, extra_truths=[(F.sym(names[2]), velo)])
     ev = GenEval(ctx, fn, env=env, facts=facts, inline=_inline(ctx, kind), refhook=F2xCanon(names[1]), sided=sided, strict=True)
     ev.run(fn.body)
+    if facts.lost:
+        raise Unsupported(f"{qual}: {facts.lost[0]}")
     if not ev.returns:
         if any(e[0] == "raise" for e in ev.events):
             return RAISES, fn
@@ -1212,6 +1206,8 @@ def _eval_plain(ctx, rel, qual, cfg, kind, truths=(), fresh=False, inline=None, 
             env[p_] = F.sym(str(d.value)) if isinstance(d.value, bool) or d.value is None else F.const(d.value)
     ev = GenEval(ctx, fn, env=env, facts=facts, inline=_inline(ctx, kind) if inline is None else inline, fresh_arrays=fresh)
     ev.run(fn.body)
+    if facts.lost:
+        raise Unsupported(f"{qual}: {facts.lost[0]}")
     return ev, fn
 
 
@@ -1281,7 +1277,15 @@ def r5_typestate(ctx):
         r = ev.returns[-1][0] if ev.returns else None
         sc = sem.split_call(r) if _good(r) else None
         base = ctx.src.func(UNC, "SolveUnc.generator")
-        ok = sc is not None and sc[0] == ".generator" and len(sc[1]) >= 1 and (sem.split_call(sc[1][0]) or ("",))[0] == "super"
+        from .c08_effects import Program
+        prog = Program(ctx, [BASE, UNC, SE2, CDF])
+        target = None
+        if sc is not None and sc[0] == ".generator" and len(sc[1]) >= 1 and (sem.split_call(sc[1][0]) or ("",))[0] == "super":
+            target = prog.method("SolveCDF", "generator", after="SolveCDF")[0]        # super().generator(...)
+        elif sc is not None and sc[0].endswith(".generator") and sc[0].count(".") == 1 and len(sc[1]) >= 1 and symname(sc[1][0]) == "self" \
+                and sc[0].split(".")[0] in prog.mro("SolveCDF")[1:]:
+            target = prog.method(sc[0].split(".")[0], "generator")[0]                  # Base.generator(self, ...)
+        ok = target is not None and target is base
         if ok:
             placed = sem.place(sc[1][1:], sc[2], [a.arg for a in base.args.args[1:]])
             pub = [a.arg for a in fn.args.args[1:]]
@@ -1307,13 +1311,14 @@ def r5_typestate(ctx):
         dels = {e[1] for e in ev.events if e[0] == "del"}
         ctx.check(set(GEN_STATE) <= dels, f"finalize (get_force {get_force}): the published arrays are forgotten", fn, sorted(dels), nontrivial=False)
         r = ev.returns[-1][0] if ev.returns else None
-        sc = sem.split_call(r) if _good(r) else None
-        ok = sc is not None and sc[0].split(".")[-1] == "SimpleNamespace" and all(_eq(sc[2].get(k), w) for k, w in zip("dva", want))
-        ctx.check(ok, f"finalize (get_force {get_force}): the solution holds the published d, v, a", fn, None if ok else repr(r))
+        obj = symname(r) if _good(r) else None
+        ok = obj is not None and ev.heap.get(obj) == "namespace" and all(_eq(ev.env.get(f"{obj}.{k}"), w) for k, w in zip("dva", want))
+        ctx.check(ok, f"finalize (get_force {get_force}): the solution holds the published d, v, a", fn,
+                  None if ok else {"returned": repr(r), "members": {k: repr(v) for k, v in ev.env.items() if obj and k.startswith(obj + ".")}})
         if get_force:
             nm = None
             for k, v in ev.env.items():
-                if k.endswith(".force") and _eq(v, want[3]):
+                if obj and k == obj + ".force" and _eq(v, want[3]):
                     nm = k
             ctx.check(nm is not None, "finalize: with get_force the force history finally in effect is returned", fn)
     # _force is read only by finalize and the generator functions
@@ -1348,9 +1353,40 @@ def r5_typestate(ctx):
                                 names.add("?")
                     if "_force" in names or "?" in names:
                         readers.append(qq)
-    ok = set(readers) <= {"_BaseODE.finalize", "SolveUnc._solve_real_unc_generator", "SolveUnc._solve_real_unc_generator_cdforces",
-                          "SolveUnc._solve_complex_unc_generator", "SolveExp2._solve_se2_generator"}
-    ctx.check(ok, "the stored force history `_force` is read only by the generator bodies and finalize", BASE + ":1", sorted(set(readers)))
+    allowed = {"_BaseODE.finalize"} | {q_ for _, q_, _ in GENS.values()}
+    # a private helper whose every call site lies in finalize / a generator body (or in such a helper) reads on their behalf
+    sites = {}
+    for rel in (BASE, UNC, SE2, CDF, O.NM, O.FD):
+        try:
+            m = ctx.src.mod(rel)
+        except Exception:  # noqa
+            continue
+        for qq, f2 in m.funcs.items():
+            if "#" in qq:
+                continue
+            for n in walk_no_nested(f2):
+                if isinstance(n, ast.Call):
+                    d_ = dotted(n.func) or ""
+                    sites.setdefault(d_.split(".")[-1], set()).add(qq)
+                elif isinstance(n, (ast.Attribute, ast.Name)) and isinstance(getattr(n, "ctx", None), ast.Load):
+                    nm_ = n.attr if isinstance(n, ast.Attribute) else n.id
+                    sites.setdefault("&" + nm_, set()).add(qq)      # the function taken as a value somewhere
+
+    def on_behalf(q_, seen=()):
+        if q_ in allowed:
+            return True
+        nm_ = q_.split(".")[-1]
+        callers = sites.get(nm_, set())
+        if not nm_.startswith("_") or nm_.startswith("__") or not callers or q_ in seen:
+            return False
+        mentions = sites.get("&" + nm_, set())
+        if not mentions <= callers:
+            return False                                         # escapes as a value: callers unknown
+        return all(on_behalf(c_, seen + (q_,)) for c_ in callers)
+
+    bad_readers = sorted(q_ for q_ in set(readers) if not on_behalf(q_))
+    ctx.check(not bad_readers, "the stored force history `_force` is read only by the generator bodies and finalize (or private helpers only they call)",
+              BASE + ":1", bad_readers)
     # _init_dva_part
     inl = G.inline_table(ctx, [(BASE, "_BaseODE")], exclude=("_init_dva_part", "_init_dva", "generator", "tsolve", "fsolve", "finalize"))
     for unc in (True, False):
@@ -1537,12 +1573,12 @@ def type_trace(trace, attrs, params, equiv, label, bad, checked):
                 T.stmt(st)
         elif ev[0] == "bind":
             T.env[ev[1]] = Arr("N", None)
-        elif ev[0] == "enter":
+        elif ev[0] in ("enter", "enter_closure"):
             node, fn = ev[1], ev[2]
             names = [a.arg for a in fn.args.posonlyargs + fn.args.args]
             if names and names[0] in ("self", "cls") and isinstance(node.func, ast.Attribute):
                 names = names[1:]
-            new = {}
+            new = dict(T.env) if ev[0] == "enter_closure" else {}     # a function defined here reads the scope that defined it
             for p_, a in zip(names, node.args):
                 new[p_] = T.ty(a)
             for k in node.keywords:
@@ -1583,7 +1619,7 @@ def r6_typing(ctx):
         for cfg in configs:
             for which in ("pos", "addon"):
                 try:
-                    arm = run_arm(ctx, kind, cfg, which, generic_prefix="carry:")
+                    arm = run_arm(ctx, kind, cfg, which, generic_prefix="carry:") if which == "pos" else addon_arm(ctx, kind, cfg)
                 except Unsupported as e:
                     ctx.error(f"{qual} [{label}] ({cfg_tag(cfg)}, {which}): not evaluated", fn, str(e))
                     continue
